@@ -62,6 +62,41 @@ def gen_history(rng, stream):
     return balance, fee, ops
 
 
+def gen_fine(rng):
+    """eight-decimal quantities, a fee in basis points and arbitrary prices: qty x price and qty x (1 - fee) have more than eight decimals, so the
+    float products are not exact; every order fits with a margin (no decision sits on the rejection boundary), compared up to 1e-10"""
+    qtys = [0.01234567, 0.00340001, 0.25, 0.1, 0.07654321, 0.5, 0.00012345]
+    prices = [43210.5, 101.37, 0.031234567, 2750.125, 19999.99]
+    fee = rng.choice([0.001, 0.0004, 0.00075, 0.0])
+    balance = 1000000.0
+    ops, nid, active = [], 0, []
+    base_guess, resting_sells = 0.0, 0.0
+    for _ in range(rng.choice([4, 8, 14, 25])):
+        r = rng.random()
+        if r < 0.55 or not active:
+            nid += 1
+            q = rng.choice(qtys)
+            side = 'sell' if (rng.random() < 0.5 and resting_sells + q <= 0.9 * base_guess) else 'buy'
+            typ = rng.choice(['MARKET', 'LIMIT', 'STOP'])
+            ops.append(('submit', nid, side, typ, q, rng.choice(prices), side == 'sell' and rng.random() < 0.8))
+            active.append((nid, side, q))
+            if side == 'sell': resting_sells += q
+        elif r < 0.8:
+            oid, side, q = rng.choice(active)
+            ops.append(('execute', oid))
+            active = [a for a in active if a[0] != oid]
+            if side == 'buy':
+                base_guess += q * (1 - fee)
+            else:
+                base_guess -= q; resting_sells -= q
+        else:
+            oid, side, q = rng.choice(active)
+            ops.append(('cancel', oid))
+            active = [a for a in active if a[0] != oid]
+            if side == 'sell': resting_sells -= q
+    return balance, fee, ops
+
+
 def run_impl(balance, fee, ops):
     from . import driver
     from jesse.exceptions import InsufficientBalance
@@ -166,7 +201,26 @@ def run(tier, seed, replay=None):
             errs.append(out[-1200:]); continue
         bad_model += [j[1] + k for k in C.parse_nat_list(r[0])]
         bad_ref += [j[1] + k for k in C.parse_nat_list(r[1])]
+    # the fine stream: inexact float products, compared up to 1e-10
+    fine = [gen_fine(rng) for _ in range(150 if tier == 'quick' else 2000)]
+    fobs = [run_impl(*c) for c in fine]
+    fjobs = []
+    for i in range(0, len(fine), SH):
+        body = ';\n'.join(f'({num(b)}, {num(f_)}, {C.clist([c_op(o) for o in ops[:len(ob)]])}, {C.clist([c_obs(x) for x in ob])})'
+                          for (b, f_, ops), ob in zip(fine[i:i + SH], fobs[i:i + SH]))
+        fjobs.append((f'c04_fine_{i // SH}', i, hdr + f'Definition cs : list scase := [\n{body}\n].\nEval vm_compute in (bad_indices (map model_agrees_close cs)).\n'
+                      'Eval vm_compute in (bad_indices (map impl_meets_ref_close cs)).\n'))
+    fbad_model, fbad_ref = [], []
+    for j, (rc, out) in zip(fjobs, C.coq_eval_many([(j[0], j[2]) for j in fjobs])):
+        r = C.parse_results(out)
+        if rc != 0 or len(r) != 2:
+            errs.append(out[-1200:]); continue
+        fbad_model += [j[1] + k for k in C.parse_nat_list(r[0])]
+        fbad_ref += [j[1] + k for k in C.parse_nat_list(r[1])]
     res.oblige('C04 case shards evaluated', not errs, '\n'.join(errs))
+    res.oblige('correspondence: Model/Spot.v = real objects after every operation on eight-decimal quantities, basis-point fees and arbitrary prices (up to 1e-10)',
+               not fbad_model, json.dumps([fine[i] for i in fbad_model[:2]])[:1500])
+    res.extra.update({'fine_histories': len(fine), 'fine_model_mismatches': len(fbad_model), 'fine_reference_mismatches': len(fbad_ref)})
     res.oblige('correspondence: Model/Spot.v = real Order/Position/SpotExchange objects after every operation (exact)', not bad_model,
                json.dumps([cases[i] for i in bad_model[:2]])[:1500])
     nrej = sum(1 for ob in obs if ob and ob[-1][0] is False)
@@ -181,6 +235,11 @@ def run(tier, seed, replay=None):
     res.extra.update({'op_histogram': kinds, 'histories_ending_in_rejection': nrej, 'monitor_evaluations': len(cases),
                       'model_mismatches': len(bad_model), 'reference_mismatches': len(bad_ref)})
     seen = set()
+    for i in sorted(fbad_ref, key=lambda i: len(fine[i][2]))[:1]:
+        b, f_, ops = fine[i]
+        seen.add('spot_fine')
+        res.violation('spot_balances_differ_from_the_cash_account_beyond_1e-10', 'spot balances / position differ from the reference cash account by more than 1e-10 '
+                      'on quantities with eight decimals', {'balance': b, 'fee': f_, 'ops': ops[:len(fobs[i])], 'implementation_observed': fobs[i]})
     for i in sorted(bad_ref, key=lambda i: len(cases[i][2])):
         b, f_, ops = cases[i]
         site = 'uncovered_sell_execution' if uncovered(b, f_, ops, obs[i]) else 'spot:' + '+'.join(sorted({o[0] + (':' + o[2] + ':' + o[3] if o[0] == 'submit' else '') for o in ops[:len(obs[i])]}))[:120]
